@@ -125,3 +125,108 @@ func genAccLen(g *Gen, w *bufio.Writer, per int) {
 		}
 	}
 }
+
+// accra <Type> <Field> <contents> <off> <k>: a slice-typed setter called with a window of the element's own Buffer as its argument
+// (`a.SetX(a.Buffer[off:off+k])`); the result is that of setting a private copy of the window (copy has memmove semantics)
+func runAccRAlias(args []string) (string, bool) {
+	if len(args) != 5 {
+		return "", false
+	}
+	mk, ok := nasTypeRegistry[args[0]]
+	c, ok2 := unhex(args[2])
+	off, e1 := strconv.Atoi(args[3])
+	k, e2 := strconv.Atoi(args[4])
+	if !ok || !ok2 || e1 != nil || e2 != nil || off < 0 || k < 0 || off+k > len(c) {
+		return "", false
+	}
+	pv := reflect.ValueOf(mk())
+	v := pv.Elem()
+	bf := v.FieldByName("Buffer")
+	if !bf.IsValid() || bf.Kind() != reflect.Slice || !setContents(v, c) {
+		return "", false
+	}
+	if f := v.FieldByName("Len"); f.IsValid() {
+		f.SetUint(uint64(len(c)))
+	}
+	g, s := pv.MethodByName("Get"+args[1]), pv.MethodByName("Set"+args[1])
+	if !g.IsValid() || !s.IsValid() || s.Type().NumIn() != 1 || s.Type().In(0).Kind() != reflect.Slice {
+		return "", false
+	}
+	s.Call([]reflect.Value{bf.Slice(off, off+k)})
+	out := g.Call(nil)[0]
+	gb := make([]byte, out.Len())
+	for i := range gb {
+		gb[i] = byte(out.Index(i).Uint())
+	}
+	return fmt.Sprintf("ok %s %s", hexs(getContents(v)), hexs(gb)), true
+}
+
+func init() {
+	ops["accra"] = func(a []string) string {
+		r, ok := runAccRAlias(a)
+		if !ok {
+			return "bad-op"
+		}
+		return r
+	}
+}
+
+// oracle: the same call with a private copy of the window on a second element gives the same contents
+func oracleAccRA(args []string) string {
+	r, ok := runAccRAlias(args)
+	if !ok {
+		return skip
+	}
+	c, _ := unhex(args[2])
+	off, _ := strconv.Atoi(args[3])
+	k, _ := strconv.Atoi(args[4])
+	_, after, g1, _, ok := runAccR(args[0], args[1], c, append([]byte{}, c[off:off+k]...))
+	if !ok {
+		return skip
+	}
+	if want := fmt.Sprintf("ok %s %s", hexs(after), hexs(g1)); r != want {
+		return fmt.Sprintf("FAIL setter called with a window of the element's own contents: %s, with a private copy of the same octets: %s", r[3:], want[3:])
+	}
+	return "pass"
+}
+
+func genAccAlias(g *Gen, w *bufio.Writer, per int) {
+	lay := factsFromLayout()
+	for _, f := range lay {
+		if f.Store != "buf" || f.Kind == "scalar" {
+			continue
+		}
+		mk, ok := nasTypeRegistry[f.Type]
+		if !ok {
+			continue
+		}
+		if sm := reflect.ValueOf(mk()).MethodByName("Set" + f.Field); !sm.IsValid() || sm.Type().NumIn() != 1 || sm.Type().In(0).Kind() != reflect.Slice {
+			continue // array-typed arguments are passed by value: they cannot share memory with the element
+		}
+		for k := 0; k < per; k++ {
+			size := f.Lo + 2 + g.Intn(12)
+			if f.Kind != "tail" && f.Hi > size {
+				size = f.Hi + g.Intn(4)
+			}
+			c := g.Bytes(size)
+			n := size - f.Lo
+			if f.Kind != "tail" {
+				n = f.Hi - f.Lo
+			}
+			if n <= 0 {
+				continue
+			}
+			off := g.Intn(size - n + 1)
+			if k%2 == 0 && f.Lo > 0 { // a window starting just before the field: source and destination overlap
+				off = f.Lo - 1 - g.Intn(min(f.Lo, 2))
+				if off < 0 {
+					off = 0
+				}
+				if off+n > size {
+					n = size - off
+				}
+			}
+			fmt.Fprintf(w, "accra %s %s %s %d %d\n", f.Type, f.Field, hexs(c), off, n)
+		}
+	}
+}
